@@ -64,9 +64,9 @@ def main() -> int:
         lines.append(f"VIOLATION property={prop} replay={p} no-failing-input-found")
         rc = 1
     seen = set()
-    for v in out.violations:
+    for v in out.violations[:40]:
         p = write_replay(prop, "violation", {"kind": "violation", "property": prop, "what": v["what"], **v["replay"]})
-        if v["what"] in seen:
+        if v["what"] in seen or len(seen) >= 5:
             continue
         seen.add(v["what"])
         lines.append(f"VIOLATION property={prop} replay={p}")
